@@ -12,6 +12,21 @@ CHECKS = {
  "C17": dict(engine="P", design="5/C17",
    technique="complete product-grid enumeration deciding polynomial identities (degree <= d per variable vanishing on a (d+1)-point grid per variable => identically zero), exact in float64; exhaustive finite exact alphabets for the non-polynomial maps",
    text="sl2_irrep(.,n) homomorphism on the full grid {0..n-1}^8 for n=2..4 (thorough 6: 2.1M points), sl2_to_so21 on {0,1,2}^8 and its form law on {0..4}^4, slc_to_slr / block_include on their degree-1/2 grids: these DECIDE the identities for all real and complex matrices. Adjoint representations on all integer matrices with entries in [-2,2], det +-1, and elementary alphabets (homomorphism, Killing form); sl2c_to_so31 / Hermitian action on all 72 Gaussian det-1 matrices; every batch shape vs per-matrix calls; o_to_pgl recovery and homomorphism up to sign on all det +-1 integer matrices, also for four non-default bilinear forms."),
+ "C06": dict(engine="E+P", design="5/C06",
+   technique="bounded-exhaustive enumeration of all deterministic automata with <=3 states over <=2 labels (single- and multi-letter labels) x every option combination x length bound, path-enumeration oracle on a free-monoid representation (image <-> word decided both ways, exactly); BFS over memo-dictionary call histories",
+   text="Every automaton of the classes x {default, start_state=s, end_state=s for all s} x maxlen x with_words x edge_words x L=0..3 (thorough 5; also automata built by add_edges): returned words = oracle multiset, matrices[i] is exactly the image of words[i] and decodes back to it, agreement with the automaton's own enumerators; all call sequences of length 2 (thorough 3) sharing one precomputed dict within a mode; freely reduced enumeration returns each freely reduced word exactly once; all 18 built-in automata."),
+ "C07": dict(engine="P", design="5/C07",
+   technique="bounded-exhaustive enumeration of Coxeter matrices (all 343 ordered rank-3 matrices, rank 2, rank 4 over {2,3,4,inf}; thorough rank 4 over {2,3,4,5,inf} and rank-5 paths/stars) x ALL words up to length L (breadth-first over oracle-reduced words and their one-letter extensions) against Tits' braid-move solution of the word problem, cross-checked by matrix enumeration and Steinberg's growth series",
+   text="Per matrix/encoding/route/naming: geodesic automaton accepts w iff the oracle says w is reduced; shortlex accepts w iff reduced and minimal in its braid class; even variants iff additionally even length (via enumerate_words and chunked accepts); counts per length equal the growth series (finite groups decided completely: language exhausted, automaton acyclic); distinct shortlex words have distinct canonical-representation images."),
+ "C08": dict(engine="P", design="5/C08",
+   technique="bounded-exhaustive enumeration of Coxeter matrices (all 13^3 rank-3 matrices over labels 2..12,inf in both encodings, rank 2, rank 4 family, triangle triples) x constructor route x naming x representation kind against an independently built cosine form and relation oracle",
+   text="Every representation (geometric, canonical, Cartan incl. non-symmetric, Tits-Vinberg, diagonalised, hyperbolic when the oracle signature is (d,1)) built fresh per case: generators are involutions, (st)^m = I (exact order for the canonical one), cosine form preserved and canonical = dual on all words of length <=3 (quick rank 4: 2), hyperbolic generators are reflections of O(d,1); for all hyperbolic triangle triples over {2..8,inf} in all orderings the fixed points of ab, bc, ca span a triangle with angles pi/p, pi/q, pi/r (ideal vertex for inf)."),
+ "C10": dict(engine="E+P", design="5/C10",
+   technique="bounded-exhaustive enumeration of all deterministic automata (k<=3 over <=2 labels; thorough also 3 labels / 4 states) x start vertex x ALL words up to length L against the set-model language oracle; BFS over query/operation histories (queries must not change what later operations return)",
+   text="accepts / follow_word / initial_accepted_subword / both enumerators agree with the oracle walk, each accepted word listed once; automaton_multiple(1..4) and even_automaton accept exactly the accepted words of length divisible by k; every injective relabelling maps the language letterwise; recurrent() is the oracle's greatest fixpoint; remove_long_paths keeps exactly the shortest-path edges for every root; receivers unchanged by non-in-place calls; all 18 built-ins; histories of depth 3 (thorough 5) mixing queries and operations."),
+ "C19": dict(engine="P", design="5/C19",
+   technique="bounded-exhaustive enumeration of ordered vertex tuples of a Klein lattice x model x drawing transform, one fresh matplotlib figure per execution, drawn Path sampled by de Casteljau and compared with the closed-form geodesic / horocycle geometry",
+   text="All ordered non-degenerate triples (and 4-tuples; thorough 5..8-tuples) of a 16-point (thorough 27) lattice incl. edges through the origin and above RADIUS_THRESHOLD: one closed continuous path visiting the vertices in order, every sampled point on the hyperbolic edge inside the model (straight chord above the threshold); geodesic Arcs have the oracle centre/radius/extent; points, Klein and projective polygons in every chart sit at the transformed model coordinates; horospheres (single and composite) and horoarcs match the horocycle; wrong-dimension objects are rejected."),
  "C09": dict(engine="E+P", design="5/C09",
    technique="explicit-state BFS over operation histories of the real FSA object vs a set model (state de-duplication incl. list-aliasing pattern); exhaustive enumeration of kbmag tables",
    text="All operation histories up to the stated depth over a 3-vertex/2-label (thorough: also 3-label and 4-vertex) universe, from every construction route, are executed on real FSA objects; in every reached state the three views are compared with a set model. All kbmag tables with <=2 (thorough 3) states x spacing/interval styles are parsed and compared. Bounded-exhaustive: no history within the bound is skipped."),
